@@ -434,6 +434,15 @@ func main() {
 		"const map<string, list<map<i32, string>>> c = {\"a\": [{1: \"x\", 2: \"y\"}, {}], \"b\": []}\n",
 		"const set<i32> c = [1, 2, 3]\nconst list<double> d = [1.5, 2, -3.25]\n",
 		"struct S { 1: optional S next, 2: list<S> kids = [], 3: map<string, S> m = {} }\n",
+		// everything a field can carry, on function arguments and throws
+		"service V { void f(1: required i32 a, 2: optional string b, 3: i64 c) }\n",
+		"service V { void f(1: i32 a = 5, 2: string b = \"x\", 3: list<i32> l = [1, 2], 4: double d = 1.5) }\n",
+		"service V { void f(1: i32 a (k = \"v\"), 2: string b (k1 = \"v1\", k2 = \"v2\", k1 = \"v3\")) }\n",
+		"exception X { 1: string m }\nservice V { void f() throws (1: X x (k = \"v\"), 2: required X y) }\n",
+		"service V { i32 f(-1: i32 a, -7: i32 b, i32 c, 0x10: i32 d) (fk = \"fv\") } (sk = \"sv\")\n",
+		"service V { list<map<string, i32>> f(1: set<i32> a, 2: map<i32, list<string>> b (k = \"v\") ) }\n",
+		"struct S { 1: i32 a = 5 (k = \"v\"), 2: required list<i32> b = [1] (k = \"v\", k = \"w\") }\n",
+		"enum E { A = 1 (k = \"v\"), B (k = \"w\", k = \"x\"), C } (ek = \"ev\")\n",
 	} {
 		c.roundTrip("shape:"+firstWords(t), t, true)
 	}
